@@ -222,10 +222,7 @@ func (r *runner) cheapMutations(s *seedEnc) {
 		}
 	}
 	for _, f := range s.Fields {
-		if f.Kind == 'v' {
-			continue
-		}
-		if f.Kind == 't' || f.Kind == 's' {
+		if f.Kind == 'v' || f.Kind == 'c' || f.Kind == 't' || f.Kind == 's' {
 			continue
 		}
 		for _, v := range lenValues {
@@ -237,9 +234,22 @@ func (r *runner) cheapMutations(s *seedEnc) {
 	}
 }
 
-// sweepPositions: positions that get all 256 values.
+// sweepPositions: positions that get all 256 values: every byte of a tag /
+// size / length / count field; for the version-1-headed twin (same layout,
+// already swept as version 2) instead every instruction byte, the opcodes
+// being what the v1 converter dispatches on.
 func sweepPositions(s *seedEnc, rot int) []int {
 	var ps []int
+	if s.V1 && s.Fields != nil {
+		for _, f := range s.Fields {
+			if f.Kind == 'c' {
+				for i := f.Off; i < f.Off+f.Len; i++ {
+					ps = append(ps, i)
+				}
+			}
+		}
+		return ps
+	}
 	for pos := range s.Data {
 		switch {
 		case s.IsObj && len(s.Data) <= 64:
@@ -290,7 +300,9 @@ func drawByte(rt *rapid.T, label string) byte {
 func drawPos(rt *rapid.T, s *seedEnc, label string) int {
 	if len(s.Fields) > 0 && rapid.Bool().Draw(rt, label+"-struct") {
 		f := s.Fields[rapid.IntRange(0, len(s.Fields)-1).Draw(rt, label+"-field")]
-		return f.Off + rapid.IntRange(0, f.Len-1).Draw(rt, label+"-in")
+		if f.Len > 0 {
+			return f.Off + rapid.IntRange(0, f.Len-1).Draw(rt, label+"-in")
+		}
 	}
 	return rapid.IntRange(0, len(s.Data)-1).Draw(rt, label)
 }
@@ -595,7 +607,7 @@ func TestCheck(t *testing.T) {
 	if shards < 1 {
 		shards = 1
 	}
-	workers := envInt("VERIF_C18_WORKERS", 4)
+	workers := envInt("VERIF_C18_WORKERS", 6)
 	if shards > 1 {
 		workers = envInt("VERIF_C18_WORKERS", 1)
 	}
